@@ -14,7 +14,7 @@ func init() {
 	property("C09",
 		"Static conformance of text handling: (a) the terminator table is {plain: $, ascii: \\0, braille: $} and the terminator is appended exactly when the text does not already end with it, unknown types unchanged; (b) every text value recorded for hoisting or returned for a text statement is the terminator-formatted content with the very string type that is recorded/returned next to it; (c) the string type travels unchanged into ast.Text and selects the directive (default .string), and in the lexer a word directly followed by a quote is a string-type prefix whatever it spells; (d) the parallel text/type maps of a text poryswitch are read with the same key on every path; (e) one directive per line: emitText ranges over all lines of the value split at the same separator the lexer puts between adjacent literals and format() puts after a break.",
 		[]string{"contents of string literals (what the lexer accepts inside quotes) are not decided", "go/ssa lowering is faithful to the source"},
-		"C09.a", "C09.b", "C09.c", "C09.d", "C09.e", "C06.b", "C06.c", "C07.c", "C19.c", "C19.f")
+		"C09.a", "C09.b", "C09.c", "C09.d", "C09.e", "C06.b", "C06.c", "C07.c", "C19.c", "C19.f", "C10.f")
 	property("C10",
 		"Static conformance of command pass-through: (a) every iteration of the argument loop either appends the (constant-substituted) literal of the current token, closes the argument, or takes one inline arm, and then advances by exactly one token; the loop ends at the matching ')' with parenthesis depth counted on '(' / ')', and a non-empty last argument is flushed; (b) a command is rendered as TAB name [SPACE args joined by ', '] NEWLINE from constant formats; (c) statements of a chunk are rendered in order, one render per element; (d) the command name is the token literal, never constant-substituted. Hoisted-argument patching is covered by C06.a/b/c.",
 		[]string{"go/ssa lowering is faithful to the source"},
@@ -382,13 +382,20 @@ func c09c(c *Ctx) {
 	}
 	if fn := c.Fn("parser.Parser.ParseProgram"); fn != nil {
 		ok := false
+		nBuilt := 0
 		for _, tv := range c.builtTexts(fn) {
+			nBuilt++
 			v, t, n := tv.f["Value"], tv.f["StringType"], tv.f["Name"]
 			base := strings.TrimSuffix(v, ".Value")
 			if strings.HasSuffix(v, ".Value") && t == base+".StringType" && n == base+".Name.Value" {
 				ok = true
+			} else {
+				// every text built here, not just one of them
+				ok = false
+				break
 			}
 		}
+		ok = ok && nBuilt > 0
 		c.Check(ok, "ParseProgram/explicit-text-fields", c.W.FuncPos(fn), "explicit text: Value, StringType, Name copied from the same text statement", "ast.Text for explicit texts is not built from (stmt.Value, stmt.StringType, stmt.Name.Value) of one statement")
 	}
 	if fn := c.Fn("emitter.Emitter.emitText"); fn != nil {
@@ -517,6 +524,16 @@ func c09e(c *Ctx) {
 			}
 		}
 		c.Check(!early, "emitText/no-early-exit", c.W.Pos(site.call.Pos()), "all lines are emitted", "the line loop can be left early")
+		// ... each of them: no iteration goes round without writing its directive (an empty line
+		// is still a line of the text)
+		var sinks []ssa.Instruction
+		for i := range ws {
+			if (ws[i].format == "\t.%s \"%s\"\n" || ws[i].format == "\t.string \"%s\"\n") && loopHeaders(fn)[ws[i].call.Block()] == h {
+				sinks = append(sinks, ws[i].call.(ssa.Instruction))
+			}
+		}
+		w, skip := loopSkip(fn, sinks...)
+		c.Check(!skip, "emitText/every-line-written", c.W.Pos(site.call.Pos()), "every iteration writes its directive", "a line of the text can be passed over without a directive (an iteration can reach "+c.nearPos(w)+" without the write): the emitted text would differ from the stored one")
 	}
 	// label first, then marker, then lines
 	var first ssa.Instruction
